@@ -5492,6 +5492,8 @@ class PyCdlib:
                 num_bytes_to_add += self._add_fp(None, 0, False, symlink_path,
                                                  '', tmp_joliet_path, '', None,
                                                  False)
+                # The placeholder in the Joliet namespace was just added.
+                joliet_path = None
 
             udf_symlink_path_bytes = utils.normpath(udf_symlink_path)
 
